@@ -2,13 +2,18 @@ package fsp
 
 import (
 	"bufio"
+	"bytes"
+	"compress/gzip"
+	"encoding/base64"
 	"encoding/json"
 	"fmt"
+	"io"
 	"os"
 	"path/filepath"
 	"runtime"
 	"sort"
 	"strconv"
+	"strings"
 	"sync"
 	"sync/atomic"
 	"time"
@@ -311,6 +316,7 @@ func genProgram(seed int64, pool string, idx int) cProgram {
 		}
 		p.Pattern = append(p.Pattern, "boundary-arguments")
 	}
+	bigPayloadProgram(seed, pool, idx, &p)
 	shapeProgramNames(seed, pool, idx, &p)
 	sort.Strings(p.Pattern)
 	return p
@@ -343,6 +349,72 @@ type cEvent struct {
 	Panic  string   `json:"panic,omitempty"`
 	Nil    bool     `json:"nil_slice,omitempty"`
 	Wild   bool     `json:"-"` // checker only: accept whatever result the model gives
+	// big payloads travel compressed (gzip + base64); pack / unpack move them
+	DataZ  string `json:"data_gz,omitempty"`
+	BytesZ string `json:"bytes_gz,omitempty"`
+}
+
+func gzString(s string) string {
+	var b bytes.Buffer
+	w, _ := gzip.NewWriterLevel(&b, gzip.BestSpeed)
+	w.Write([]byte(s))
+	w.Close()
+	return base64.StdEncoding.EncodeToString(b.Bytes())
+}
+
+func gunzipString(z string) string {
+	raw, err := base64.StdEncoding.DecodeString(z)
+	if err != nil {
+		return ""
+	}
+	r, err := gzip.NewReader(bytes.NewReader(raw))
+	if err != nil {
+		return ""
+	}
+	out, _ := io.ReadAll(r)
+	return string(out)
+}
+
+// pack replaces big Data / Bytes by their compressed form (for transport and
+// for replay files); unpack restores them.
+func (ev *cEvent) pack() {
+	if len(ev.Data) > 2048 {
+		ev.DataZ, ev.Data = gzString(ev.Data), ""
+	}
+	if len(ev.Bytes) > 2048 {
+		ev.BytesZ, ev.Bytes = gzString(ev.Bytes), ""
+	}
+}
+
+func (ev *cEvent) unpack() {
+	if ev.DataZ != "" {
+		ev.Data, ev.DataZ = gunzipString(ev.DataZ), ""
+	}
+	if ev.BytesZ != "" {
+		ev.Bytes, ev.BytesZ = gunzipString(ev.BytesZ), ""
+	}
+}
+
+func packedEvents(evs []cEvent) []cEvent {
+	out := append([]cEvent(nil), evs...)
+	for i := range out {
+		out[i].pack()
+	}
+	return out
+}
+
+// abbr renders a payload for humans: short ones quoted in full, long ones by
+// head, tail, length and the number of zero bytes (an unwritten region).
+func abbr(s string) string {
+	if len(s) <= 96 {
+		return fmt.Sprintf("%q", s)
+	}
+	zeros := strings.Count(s, "\x00")
+	z := ""
+	if zeros > 0 {
+		z = fmt.Sprintf(", %d zero bytes from offset %d", zeros, strings.IndexByte(s, 0))
+	}
+	return fmt.Sprintf("%q…(%d bytes%s)…%q", s[:40], len(s), z, s[len(s)-24:])
 }
 
 type cHistory struct {
@@ -509,7 +581,7 @@ func runProgram(fs filesys.Filesys, p cProgram) (events []cEvent, posted bool) {
 		}
 		names := post[len(post)-1].Names
 		for _, n := range names {
-			for _, st := range []cStep{{K: "open", Dir: d, Name: n, Slot: 1}, {K: "readat", Slot: 1, Off: 0, Len: 1 << 16}, {K: "close", Slot: 1}} {
+			for _, st := range []cStep{{K: "open", Dir: d, Name: n, Slot: 1}, {K: "readat", Slot: 1, Off: 0, Len: 4 << 20}, {K: "close", Slot: 1}} {
 				if !cr.do(0, "post", st, ps, &post) {
 					return append(events, post...), false
 				}
@@ -563,7 +635,7 @@ func c14Child(args []string) int {
 		}
 		evs, posted := runProgram(fs, p)
 		cleanup()
-		h := cHistory{Idx: i, Impl: impl, Pool: pool, Build: build, Procs: procs, Clients: p.Clients, Pattern: p.Pattern, Events: evs, Posted: posted}
+		h := cHistory{Idx: i, Impl: impl, Pool: pool, Build: build, Procs: procs, Clients: p.Clients, Pattern: p.Pattern, Events: packedEvents(evs), Posted: posted}
 		b, _ := json.Marshal(h)
 		w.Write(b)
 		w.WriteByte('\n')
